@@ -1,23 +1,69 @@
-"""Run every translator (each is content-hash idempotent: files are rewritten only when they change)."""
-import os, sys
+"""Run every translator.  Each writes its file only when the content changes; a translator is skipped when the
+hash of its inputs (source files in /repo, the translator itself, library versions) is unchanged since the last
+successful run, so every check can call `generate_all()` first and always sees generated Lean files that belong
+to /repo's current working tree."""
+import hashlib
+import json
+import os
+import sys
+
 sys.path.insert(0, os.path.dirname(os.path.abspath(__file__)))
+REPO = os.environ.get("VERIF_REPO", "/repo")
+VERIF = os.path.dirname(os.path.dirname(os.path.abspath(__file__)))
+STAMP = os.path.join(VERIF, "build", "gen_stamp.json")
+
+SPECS = {
+    "radii": ("gen_radii", ["matid/geometry/geometry.py"], ["MatidGen/Radii.lean"]),
+    "tables": ("gen_tables", ["matid/data/symmetry_data.py"], ["MatidGen/AllGroups.lean", "MatidGen/SG/G001.lean", "MatidGen/SG/G230.lean"]),
+    "centring": ("gen_centring", ["matid/symmetry/symmetryanalyzer.py"], ["MatidGen/Centring.lean"]),
+    "wyckoff_rule": ("gen_wyckoff_rule", ["matid/symmetry/symmetryanalyzer.py"], ["MatidGen/WyckoffRule.lean"]),
+}
 
 
-def generate_all():
+def _digest(mod, sources):
+    h = hashlib.sha256()
+    for rel in sources:
+        with open(os.path.join(REPO, rel), "rb") as f:
+            h.update(f.read())
+    for tool in (mod + ".py", "affine.py"):
+        with open(os.path.join(VERIF, "tools", tool), "rb") as f:
+            h.update(f.read())
+    try:
+        import spglib, ase
+        h.update((spglib.__version__ + ase.__version__).encode())
+    except Exception:
+        pass
+    return h.hexdigest()
+
+
+def generate_all(only=None):
+    """returns dict name -> error string for translators that failed"""
+    try:
+        stamp = json.load(open(STAMP))
+    except Exception:
+        stamp = {}
     errs = {}
-    import gen_radii
-    import gen_tables
-    import gen_centring
-    import gen_wyckoff_rule
-    for name, fn in (("radii", gen_radii.generate), ("tables", gen_tables.generate), ("centring", gen_centring.generate),
-                     ("wyckoff_rule", gen_wyckoff_rule.generate)):
+    for name, (mod, sources, outputs) in SPECS.items():
+        if only and name not in only:
+            continue
         try:
-            fn()
+            d = _digest(mod, sources)
         except Exception as e:  # noqa
             errs[name] = repr(e)
-            print("translator %s failed: %r" % (name, e))
+            continue
+        if stamp.get(name) == d and all(os.path.exists(os.path.join(VERIF, "lean", o)) for o in outputs):
+            continue
+        try:
+            m = __import__(mod)
+            m.generate()
+            stamp[name] = d
+        except Exception as e:  # noqa
+            stamp.pop(name, None)
+            errs[name] = "%s: %s" % (type(e).__name__, e)
+    os.makedirs(os.path.dirname(STAMP), exist_ok=True)
+    json.dump(stamp, open(STAMP, "w"))
     return errs
 
 
 if __name__ == "__main__":
-    generate_all()
+    print(generate_all())
